@@ -12,17 +12,22 @@ pub mod native {
     pub fn load(vals: Vec<Vec<u8>>) {
         VALS.with(|v| *v.borrow_mut() = vals.into());
     }
+    /// The next recorded `kani::any()` value.  CBMC's trace omits an input the failure does not depend
+    /// on (seen: the unused 9th byte of a 2-byte subtag), which shows up here as a value of the wrong
+    /// width; such an input is taken as zero and the recorded value is left for the next draw.  This
+    /// cannot manufacture a violation: one is reported only if this concrete native run of the real
+    /// code panics, whatever the inputs were, and the inputs are printed.
     pub fn next(n: usize) -> Vec<u8> {
-        let v = VALS.with(|v| v.borrow_mut().pop_front());
-        match v {
-            Some(v) if v.len() == n => v,
-            Some(v) => {
-                eprintln!("REPLAY-MISMATCH wanted {} bytes, trace has {}", n, v.len());
-                std::process::exit(4)
+        let front_len = VALS.with(|v| v.borrow().front().map(|x| x.len()));
+        match front_len {
+            Some(l) if l == n => VALS.with(|v| v.borrow_mut().pop_front()).unwrap(),
+            Some(l) => {
+                eprintln!("REPLAY-NOTE wanted {} bytes, trace has {}: input omitted from the trace, taken as zero", n, l);
+                vec![0; n]
             }
             None => {
-                eprintln!("REPLAY-MISMATCH trace exhausted");
-                std::process::exit(4)
+                eprintln!("REPLAY-NOTE trace exhausted: input taken as zero");
+                vec![0; n]
             }
         }
     }
@@ -157,6 +162,9 @@ macro_rules! harness_item {
     };
     (@acc [$($a:tt)*] [string, $($r:ident,)*] fn $name:ident() $body:block) => {
         $crate::harness_item!{ @acc [$($a)* #[cfg_attr(kani, kani::stub(std::string::String::push_str, crate::stubs::push_str))] #[cfg_attr(kani, kani::stub(std::string::String::push, crate::stubs::push_char))]] [$($r,)*] fn $name() $body }
+    };
+    (@acc [$($a:tt)*] [extcut, $($r:ident,)*] fn $name:ident() $body:block) => {
+        $crate::harness_item!{ @acc [$($a)* #[cfg_attr(kani, kani::stub(unic_locale_impl::extensions::ExtensionsMap::try_from_iter, crate::stubs::ext_cut))]] [$($r,)*] fn $name() $body }
     };
     (@acc [$($a:tt)*] [nofmt, $($r:ident,)*] fn $name:ident() $body:block) => {
         $crate::harness_item!{ @acc [$($a)* #[cfg_attr(kani, kani::stub(alloc::fmt::format, crate::stubs::format))]] [$($r,)*] fn $name() $body }
